@@ -3,6 +3,19 @@
 REFLECT = "Go reflect / runtime semantics as specified in the model (DESIGN.md 3.4)"
 
 PROPS = {
+    "C07": {
+        "gens": [],
+        "lean": "Anko.Props.C07",
+        "streams": [{"name": "order", "n_quick": 2500, "n_thorough": 40000},
+                    {"name": "vm", "n_quick": 2000, "n_thorough": 40000}],
+        "trusted": ["the interpreter model lean/Anko/Model/Eval.lean mirrors vm/*.go on fragment F0 (validated differentially each run)",
+                    "reference evaluator of the order stream (harness, independent of the model)"],
+        "assumptions": ["fragment F0; `go` calls are outside the fragment (the argument evaluation of go goes through the same makeCallArgs / fast path code)",
+                        "channel send `a <- b` (evaluates b first) is not in the property's list"],
+        "partial": ["the theorems are the defining equations of each form (one evalExpr call per operand, in order, cut at the first error); "
+                    "'never twice' along whole runs is established by the correspondence of traces, not by a global theorem",
+                    "x op= e / x++ evaluate the operands of x twice by construction of the parser (documented exception)"],
+    },
     "C09": {
         "gens": [],
         "lean": "Anko.Props.C09",
@@ -85,6 +98,17 @@ PROPS = {
 
 # Texts for MANIFEST.json (level_claimed.text, level_note, technique, design_ref)
 MANIFEST_TEXT = {
+    "C07": {
+        "text": "Machine-checked proofs (Lean 4) over the interpreter model of the evaluation-order equations of every strict form (operand "
+                "lists of literals / returns / multi-assignment / fast-path calls, fixed and variadic argument lists incl. conversion for Go "
+                "parameters, binary operators, index, map literal: head first, then the tail in the state the head left, an error cuts the "
+                "rest) and every lazy form (&& || ?: ??), and that a call rejected for its argument count - or a callee without parameters "
+                "- evaluates no argument at all. Correspondence: thousands of probe-leaf expression trees over all call shapes through "
+                "model and interpreter (trace compared); oracle: independent reference evaluator predicting the probe order.",
+        "note": "Trusted: Lean kernel; fidelity of the interpreter model (differential, 0 disagreements required); harness reference evaluator.",
+        "technique": "Lean 4 proof (defining equations of the evaluator) + differential trace correspondence",
+        "design_ref": "DESIGN.md section 6 (C07)",
+    },
     "C09": {
         "text": "Machine-checked proofs (Lean 4) over the interpreter model: try/catch/finally sequencing (success skips catch and runs "
                 "finally; an ordinary error is cleared, bound to the catch variable and handled; a failing catch skips finally; the "
